@@ -340,9 +340,10 @@ func checkLocks(l *loaded) *Report {
 func normalize(s string) string { return strings.Join(strings.Fields(strings.ReplaceAll(s, ":", ": ")), " ") }
 
 type flowState struct {
-	mode   int
-	defers string // sequence of deferred releases, e.g. "W" or "R"
-	ok     bool
+	mode     int
+	defers   string // sequence of deferred releases, e.g. "W" or "R"
+	ok       bool
+	released bool // the critical section is over (an explicit unlock happened)
 }
 
 // flow: forward must-analysis of the mode over the CFG.
@@ -371,9 +372,12 @@ func (c *lockChecker) flow(f *ssa.Function, ev map[ssa.Instruction][]lockEvent, 
 				p := pend{ins: ins, ok: true}
 				switch e.kind {
 				case "acquireW", "acquireR":
-					p.kind, p.desc = "acquire", "the lock is acquired only when not already held (no re-entrance, no self-deadlock)"
-					p.ok = st.mode == mNone
+					p.kind, p.desc = "acquire", "the lock is acquired once, and only when not already held (one critical section per call: no re-entrance, no self-deadlock, no torn read across two sections)"
+					p.ok = st.mode == mNone && !st.released
 					p.detail = "mode before: " + modeName(st.mode)
+					if st.released {
+						p.detail += " (the lock was already released once in this call: a second critical section)"
+					}
 					if e.kind == "acquireW" {
 						st.mode = mW
 					} else {
@@ -388,6 +392,7 @@ func (c *lockChecker) flow(f *ssa.Function, ev map[ssa.Instruction][]lockEvent, 
 					p.ok = st.mode == want
 					p.detail = "mode before: " + modeName(st.mode)
 					st.mode = mNone
+					st.released = true
 				case "deferW":
 					st.defers += "W"
 					continue
@@ -465,7 +470,7 @@ func (c *lockChecker) flow(f *ssa.Function, ev map[ssa.Instruction][]lockEvent, 
 				cp := st
 				in[s] = &cp
 				work = append(work, s)
-			} else if cur.mode != st.mode || cur.defers != st.defers {
+			} else if cur.mode != st.mode || cur.defers != st.defers || cur.released != st.released {
 				if cur.mode != mBad {
 					cur.mode = mBad
 					work = append(work, s)
